@@ -293,6 +293,12 @@ pub fn run(ctx: &mut Ctx) {
         }
     };
     ctx.sample(|| format!("descriptions of the {} failure kinds: {:?}", N_KINDS, want));
+    // a long-lived observer: this thread fails once now and looks again after hundreds of other threads have
+    // come, failed and gone
+    let mut observer = ThreadState::new();
+    let observer_kind = 1 + (ctx.shard as usize % (N_KINDS - 1));
+    observer.fail(observer_kind);
+    let observed_first = observer.read();
     let thorough = ctx.tier == "thorough";
     let reduced = ctx.tier == "miri" || ctx.tier == "tsan";
     // (a) every interleaving of 2 threads x 4 steps (70) and 3 threads x 3 steps (1680), several script sets
@@ -330,6 +336,8 @@ pub fn run(ctx: &mut Ctx) {
             .map(|(ti, &l)| {
                 let mut s: Vec<Step> = (0..l)
                     .map(|_| match rng.below(6) {
+                        // odd script sets: every thread draws from all failure kinds (threads may fail alike)
+                        0 | 1 if rep % 2 == 1 => Step::Fail(rng.below(N_KINDS)),
                         0 | 1 => Step::Fail((ti * 3 + rng.below(3)) % N_KINDS),
                         2 => Step::Ok,
                         3 => Step::Recheck,
@@ -366,6 +374,16 @@ pub fn run(ctx: &mut Ctx) {
             }
         }
     }
+    // the observer's description is still its own
+    let check_observer = |ctx: &mut Ctx, observer: &mut ThreadState, when: &str| {
+        ctx.count("observer_reads");
+        let kept = observer.recheck();
+        let again = observer.read();
+        if again != observed_first || again.as_deref() != Some(want[observer_kind].as_str()) || (kept.is_some() && kept != Some(observed_first.clone())) {
+            ctx.violation("C16", "observer|description-changed".into(), format!("{}: a thread that failed once at the start now reads {:?} (kept pointer: {:?}), its failure says {:?}", when, again, kept, want[observer_kind]), &[]);
+        }
+    };
+    check_observer(ctx, &mut observer, "after the forced schedules");
     // (b) free-running stress
     let nthreads = if ctx.tier == "miri" { 3 } else { 16 };
     let steps = if ctx.tier == "miri" { 24 } else { ctx.scaled(if thorough { 400_000 } else if ctx.tier == "tsan" { 4_000 } else { 40_000 }) as usize };
@@ -436,4 +454,27 @@ pub fn run(ctx: &mut Ctx) {
         }
         ctx.cover(&format!("stress|{}", r));
     }
+    // many short-lived failing threads, one after the other, then the observer once more
+    if ctx.tier != "miri" {
+        for k in 0..600usize {
+            let h = std::thread::spawn(move || {
+                let mut st = ThreadState::new();
+                st.fail(k % N_KINDS);
+                st.read()
+            });
+            match h.join() {
+                Ok(got) => {
+                    ctx.count("short_lived_threads");
+                    if got.as_deref() != Some(want[k % N_KINDS].as_str()) {
+                        ctx.violation("C16", "short-lived|wrong-description".into(), format!("thread {} read {:?}", k, got), &[]);
+                    }
+                }
+                Err(_) => ctx.violation("C16", "stress|thread-panicked".into(), "short-lived thread".into(), &[]),
+            }
+            if k % 150 == 149 {
+                check_observer(ctx, &mut observer, "after short-lived threads");
+            }
+        }
+    }
+    check_observer(ctx, &mut observer, "at the end");
 }
